@@ -284,6 +284,7 @@ impl<D: DataMut> ScalarZnx<D> {
     }
 }
 
+use super::serialization::checked_len;
 use byteorder::{LittleEndian, ReadBytesExt, WriteBytesExt};
 
 impl<D: DataMut> ReaderFrom for ScalarZnx<D> {
@@ -292,12 +293,16 @@ impl<D: DataMut> ReaderFrom for ScalarZnx<D> {
         let new_cols: usize = reader.read_u64::<LittleEndian>()? as usize;
         let len: usize = reader.read_u64::<LittleEndian>()? as usize;
 
-        let expected_len: usize = new_n * new_cols * size_of::<i64>();
-        if expected_len != len {
-            return Err(std::io::Error::new(
-                std::io::ErrorKind::InvalidData,
-                format!("ScalarZnx metadata inconsistent: n={new_n} * cols={new_cols} * 8 = {expected_len} != data len={len}"),
-            ));
+        match checked_len(&[new_n, new_cols, size_of::<i64>()]) {
+            Some(expected_len) if expected_len == len => {}
+            expected_len => {
+                return Err(std::io::Error::new(
+                    std::io::ErrorKind::InvalidData,
+                    format!(
+                        "ScalarZnx metadata inconsistent: n={new_n} * cols={new_cols} * 8 = {expected_len:?} != data len={len}"
+                    ),
+                ));
+            }
         }
 
         let buf: &mut [u8] = self.data.as_mut();
